@@ -436,3 +436,35 @@ Proof.
 Qed.
 
 End Cascade.
+
+(* ------------------------------------------------------------------ plain assignment (cascade=False), positionally *)
+Section Plain.
+Variable B H : positive.
+Variable depth : nat.
+
+Theorem set_match_plain fuel d0 doc pp v x tr nl r doc' nl' es :
+  kipath (pp ++ [v]) = true -> NoDup (labels doc) ->
+  Mutate.set_match B H depth (S fuel) (SrcDoc d0) doc (pp ++ [v]) x false tr nl = (r, doc', nl', es) ->
+  match r with
+  | Ok m => exists y y', lookup doc pp = Some y /\ store v x y = Some y' /\ doc' = put_at doc pp y' /\ tdata m = x
+  | Exn e => doc' = doc
+  end.
+Proof.
+  intros Hk Hnd Hsm. destruct (kipath_snoc _ _ Hk) as [Hkpp Hkv].
+  cbn [Mutate.set_match] in Hsm.
+  assert (Hsp : split_last (pp ++ [v]) = Some (pp, v)).
+  { clear. induction pp as [|w r IH]; [reflexivity|]. cbn [app split_last]. rewrite IH. destruct (r ++ [v]) eqn:E; [destruct r; discriminate | reflexivity]. }
+  rewrite Hsp in Hsm.
+  pose proof (get_match_ki B H depth doc pp tr Hkpp) as Hg. cbv zeta in Hg.
+  destruct (jget_match B H depth (SrcDoc doc) pp true tr) as [rg es0]. cbn [fst] in Hg.
+  destruct Hg as [(pm & -> & Hl) | [(-> & Hl) | (e & -> & Hb)]].
+  - assert (Hone : forall i, label_of (tdata pm) = Some i -> cnt (labels doc) i = 1).
+    { intros i Hi. pose proof (lookup_cnt _ _ _ _ Hl Hi). pose proof (proj1 (NoDup_count_occ Nat.eq_dec (labels doc)) Hnd i). lia. }
+    rewrite (leaf_set_store doc pm v x pp (tdata pm) Hkv Hl eq_refl Hone) in Hsm.
+    destruct (store v x (tdata pm)) as [y'|] eqn:Hs; injection Hsm as <- <- _ _; [|reflexivity].
+    exists (tdata pm), y'. repeat split; auto. apply tdata_mk_child. exact Hkv.
+  - injection Hsm as <- <- _ _. reflexivity.
+  - destruct e; try discriminate Hb; injection Hsm as <- <- _ _; reflexivity.
+Qed.
+
+End Plain.
